@@ -20,6 +20,7 @@ CONSTANTS Family,
           NameSets,    \* dispatch: the http_method_names settings
           ReqMs,       \* dispatch: request methods
           Kws,         \* dispatch: shapes of the URL arguments
+          Ons,         \* dispatch: as_view() called on the "class" / on an "instance"
           MaxDepth,    \* mw: layers per pipeline
           Kinds, Cts, Sts, Cls, Shapes, MarkSeqs,     \* mw: the initial responses
           NC, Assets   \* mw: number of component classes, those with js/css
@@ -38,8 +39,8 @@ Nowhere == [kind |-> "http", ct |-> "none", st |-> 0, hk |-> TRUE, cl |-> "absen
 HandlerPairs == IF Split THEN (SUBSET Ms) \X (SUBSET Ms)
                 ELSE ({{}} \X (SUBSET Ms)) \cup ((SUBSET Ms) \X {{}})
 DispatchCases ==
-  {[fam |-> "dispatch", vd |-> p[1], cd |-> p[2], names |-> n, m |-> m, kw |-> kw] :
-     p \in HandlerPairs, n \in NameSets, m \in ReqMs, kw \in Kws}
+  {[fam |-> "dispatch", vd |-> p[1], cd |-> p[2], names |-> n, m |-> m, kw |-> kw, on |-> on] :
+     p \in HandlerPairs, n \in NameSets, m \in ReqMs, kw \in Kws, on \in Ons}
 
 RtrCases ==
   {[fam |-> "rtr", i |-> [a |-> a, k |-> k, s |-> s, cx |-> cx, rq |-> rq, ty |-> ty, rc |-> rc, st |-> st,
@@ -93,8 +94,8 @@ DispatchRow ==
   LET c == case
       a == Answer(c.vd, c.cd, c.names, c.m)
       key == DevKey(c.vd, c.cd, c.names, c.m) IN
-  [fam |-> "dispatch", vd |-> c.vd, cd |-> c.cd, names |-> c.names, m |-> c.m, kw |-> c.kw,
-   exp |-> a, seen |-> Seen(c.m, c.kw),
+  [fam |-> "dispatch", vd |-> c.vd, cd |-> c.cd, names |-> c.names, m |-> c.m, kw |-> c.kw, on |-> c.on,
+   exp |-> a, seen |-> Seen(c.m, c.kw, c.on),
    dev |-> [key |-> key, out |-> DevAnswer(c.vd, c.cd, c.names, c.m)]]
 
 RtrRow == [fam |-> "rtr", i |-> case.i, exp |-> RtrExpected(case.i)]
